@@ -1600,7 +1600,9 @@ class StateEngine(object):
                     error_type has *any* value and States.TaskFailed is
                     present in the ErrorEquals array then we should match.
                     """
-                    error_equals = retrier.get("ErrorEquals") or []
+                    error_equals = retrier.get("ErrorEquals")
+                    if not isinstance(error_equals, list):
+                        error_equals = []
                     if (
                         error_type in error_equals
                         or "States.TaskFailed" in error_equals
@@ -1683,7 +1685,9 @@ class StateEngine(object):
                     “ErrorEquals” field, transitions the machine to the state
                     named in the value of the “Next” field.
                     """
-                    error_equals = catcher.get("ErrorEquals") or []
+                    error_equals = catcher.get("ErrorEquals")
+                    if not isinstance(error_equals, list):
+                        error_equals = []
                     if (
                         error_type in error_equals
                         or "States.TaskFailed" in error_equals
